@@ -277,6 +277,7 @@ def check_unit(tpl_path, vacuity=True, keep=True):
     res.strlit_patterns = dict(unit.strlit_patterns)
     res.bare_loops = dict(unit.bare_loops)
     res.callees = dict(unit.callees)
+    res.trusted_text = {k: sha(v) for k, v in unit.trusted_text.items()}
     # names that carry a contract written in this unit (extracted functions, wrappers, assumed std contracts of prelude/)
     res.contracted_names = sorted(set(re.findall(r"\bfn\s+(\w+)", text)) | set(re.findall(r"assume_specification[^\[;]*\[[^\]]*?(\w+)\s*(?:::<[^\]]*>)?\s*\]", text)))
     res.lost_required = dict(unit.lost_required)
